@@ -447,7 +447,7 @@ func (mpt *MerklePatriciaTrie) delete(key Key, prefix, path Path) (Node, Key, er
 		if ln, ok := node.(*LeafNode); ok && len(ln.Path) != 0 {
 			return nil, nil, ErrValueNotPresent
 		}
-		return mpt.deleteAfterPathTraversal(node)
+		return mpt.deleteAfterPathTraversal(node, prefix)
 	}
 	return mpt.deleteAtNode(key, node, prefix, path)
 }
@@ -638,51 +638,7 @@ func (mpt *MerklePatriciaTrie) deleteAtNode(key Key, node Node, prefix, path Pat
 					tempNode := nodeImpl.Clone().(*FullNode)
 					// clear the child being deleted
 					tempNode.PutChild(path[0], nil)
-					var otherChildKey []byte
-					var oidx byte
-					for idx, pe := range PathElements {
-						child := tempNode.GetChild(pe)
-						if child != nil {
-							oidx = byte(idx)
-							otherChildKey = child
-							break
-						}
-					}
-					ochild, err := mpt.getNode(otherChildKey)
-					if err != nil {
-						return nil, nil, err
-					}
-					npath := []byte{nodeImpl.indexToByte(oidx)}
-					var nnode Node
-					switch onodeImpl := ochild.(type) {
-					case *FullNode:
-						nnode = NewExtensionNode(npath, otherChildKey)
-					case *LeafNode:
-						if onodeImpl.Path != nil {
-							npath = append(npath, onodeImpl.Path...)
-						}
-						lnode := ochild.Clone().(*LeafNode)
-						lnode.SetOrigin(mpt.Version)
-						lnode.Path = npath
-						lnode.Prefix = concat(prefix)
-						nnode = lnode
-						if err := mpt.deleteNode(ochild); err != nil {
-							return nil, nil, err
-						}
-					case *ExtensionNode:
-						if onodeImpl.Path != nil {
-							npath = append(npath, onodeImpl.Path...)
-						}
-						enode := ochild.Clone().(*ExtensionNode)
-						enode.Path = npath
-						nnode = enode
-						if err := mpt.deleteNode(ochild); err != nil {
-							return nil, nil, err
-						}
-					default:
-						panic(fmt.Sprintf("unknown node type: %T %v %T", ochild, ochild, mpt.db))
-					}
-					return mpt.insertNode(node, nnode)
+					return mpt.liftOnlyChild(node, tempNode, prefix)
 				}
 			}
 		}
@@ -691,7 +647,7 @@ func (mpt *MerklePatriciaTrie) deleteAtNode(key Key, node Node, prefix, path Pat
 		return mpt.insertNode(node, nnode)
 	case *LeafNode:
 		if bytes.Equal(path, nodeImpl.Path) {
-			return mpt.deleteAfterPathTraversal(node)
+			return mpt.deleteAfterPathTraversal(node, prefix)
 		}
 
 		return nil, nil, ErrValueNotPresent // There is nothing to delete
@@ -747,6 +703,58 @@ func (mpt *MerklePatriciaTrie) deleteAtNode(key Key, node Node, prefix, path Pat
 	}
 }
 
+// liftOnlyChild replaces node, a branch that is left with exactly one child and
+// no value (fn is that reduced branch), by its child lifted one level up: an
+// extension over a branch child, or the child leaf/extension with the branch
+// index prepended to its path.
+func (mpt *MerklePatriciaTrie) liftOnlyChild(node Node, fn *FullNode, prefix Path) (Node, Key, error) {
+	var otherChildKey []byte
+	var oidx byte
+	for idx, pe := range PathElements {
+		child := fn.GetChild(pe)
+		if child != nil {
+			oidx = byte(idx)
+			otherChildKey = child
+			break
+		}
+	}
+	ochild, err := mpt.getNode(otherChildKey)
+	if err != nil {
+		return nil, nil, err
+	}
+	npath := []byte{fn.indexToByte(oidx)}
+	var nnode Node
+	switch onodeImpl := ochild.(type) {
+	case *FullNode:
+		nnode = NewExtensionNode(npath, otherChildKey)
+	case *LeafNode:
+		if onodeImpl.Path != nil {
+			npath = append(npath, onodeImpl.Path...)
+		}
+		lnode := ochild.Clone().(*LeafNode)
+		lnode.SetOrigin(mpt.Version)
+		lnode.Path = npath
+		lnode.Prefix = concat(prefix)
+		nnode = lnode
+		if err := mpt.deleteNode(ochild); err != nil {
+			return nil, nil, err
+		}
+	case *ExtensionNode:
+		if onodeImpl.Path != nil {
+			npath = append(npath, onodeImpl.Path...)
+		}
+		enode := ochild.Clone().(*ExtensionNode)
+		enode.Path = npath
+		nnode = enode
+		if err := mpt.deleteNode(ochild); err != nil {
+			return nil, nil, err
+		}
+	default:
+		panic(fmt.Sprintf("unknown node type: %T %v %T", ochild, ochild, mpt.db))
+	}
+	return mpt.insertNode(node, nnode)
+}
+
 func (mpt *MerklePatriciaTrie) insertAfterPathTraversal(value MPTSerializable, node Node) (Node, Key, error) {
 	switch nodeImpl := node.(type) {
 	case *FullNode:
@@ -788,7 +796,7 @@ func (mpt *MerklePatriciaTrie) insertAfterPathTraversal(value MPTSerializable, n
 	}
 }
 
-func (mpt *MerklePatriciaTrie) deleteAfterPathTraversal(node Node) (Node, Key, error) {
+func (mpt *MerklePatriciaTrie) deleteAfterPathTraversal(node Node, prefix Path) (Node, Key, error) {
 	switch nodeImpl := node.(type) {
 	case *FullNode:
 		if !nodeImpl.HasValue() {
@@ -797,6 +805,11 @@ func (mpt *MerklePatriciaTrie) deleteAfterPathTraversal(node Node) (Node, Key, e
 		// The value of the branch needs to be updated
 		nnode := nodeImpl.Clone().(*FullNode)
 		nnode.SetValue(nil)
+		if nodeImpl.GetNumChildren() == 1 {
+			// without its value a branch with a single child is not canonical: lift the child,
+			// as deleteAtNode does when a branch loses its second last child
+			return mpt.liftOnlyChild(node, nnode, prefix)
+		}
 		// if nodeImpl.HasValue() {
 		// 	mpt.ChangeCollector.DeleteChange(nodeImpl.Value)
 		// }
